@@ -298,6 +298,29 @@ type HInOutField struct {
 }
 type HPlain struct{ X int }
 
+// concrete types that implement error (dig treats such a result as the
+// function's error result): non-nilable kinds included
+type HErrVal struct{ X int }
+
+func (HErrVal) Error() string { return "HErrVal" }
+
+type HErrPtr struct{ X int }
+
+func (*HErrPtr) Error() string { return "HErrPtr" }
+
+type HErrSlice []int
+
+func (HErrSlice) Error() string { return "HErrSlice" }
+
+type HErrInt int
+
+func (HErrInt) Error() string { return "HErrInt" }
+
+type HErrIface interface {
+	error
+	Extra()
+}
+
 func init() {
 	hostiles["chan"] = reflect.TypeOf((<-chan int)(nil))
 	hostiles["bichan"] = reflect.TypeOf((chan *T0)(nil))
@@ -339,6 +362,11 @@ func init() {
 	hostiles["slice"] = reflect.TypeOf([]*T0(nil))
 	hostiles["sliceI0"] = reflect.TypeOf([]I0(nil))
 	hostiles["unsafe"] = reflect.TypeOf(uintptr(0))
+	hostiles["HErrVal"] = reflect.TypeOf(HErrVal{})
+	hostiles["HErrPtr"] = reflect.TypeOf(&HErrPtr{})
+	hostiles["HErrSlice"] = reflect.TypeOf(HErrSlice(nil))
+	hostiles["HErrInt"] = reflect.TypeOf(HErrInt(0))
+	hostiles["HErrIface"] = reflect.TypeOf((*HErrIface)(nil)).Elem()
 	for n := range hostiles {
 		HostileNames = append(HostileNames, n)
 	}
